@@ -4,76 +4,78 @@
 
 // failed check (?): 
 #[test]
-fn kani_concrete_playback_pred_17068784526885732005() {
-    let concrete_vals: Vec<Vec<u8>> = vec![
-        // 4294967296ul
-        vec![0, 0, 0, 0, 1, 0, 0, 0],
-        // 4294967296ul
-        vec![0, 0, 0, 0, 1, 0, 0, 0],
-        // 4294967296ul
-        vec![0, 0, 0, 0, 1, 0, 0, 0],
-        // 0
-        vec![0],
-        // 2ul
-        vec![2, 0, 0, 0, 0, 0, 0, 0],
-        // 4ul
-        vec![4, 0, 0, 0, 0, 0, 0, 0],
-    ];
-    kani::concrete_playback_run(concrete_vals, crate::c04::q::n2_u2p32::pred);
-}
-
-// failed check (?): 
-#[test]
-fn kani_concrete_playback_pred_6502893995032325563() {
-    let concrete_vals: Vec<Vec<u8>> = vec![
-        // 2147483651ul
-        vec![3, 0, 0, 128, 0, 0, 0, 0],
-        // 4294967296ul
-        vec![0, 0, 0, 0, 1, 0, 0, 0],
-        // 18ul
-        vec![18, 0, 0, 0, 0, 0, 0, 0],
-        // 1
-        vec![1],
-        // 1ul
-        vec![1, 0, 0, 0, 0, 0, 0, 0],
-    ];
-    kani::concrete_playback_run(concrete_vals, crate::c04::q::n2_u2p32::pred);
-}
-
-// failed check (?): 
-#[test]
-fn kani_concrete_playback_pred_16766891010623557390() {
-    let concrete_vals: Vec<Vec<u8>> = vec![
-        // 4294967296ul
-        vec![0, 0, 0, 0, 1, 0, 0, 0],
-        // 4294967296ul
-        vec![0, 0, 0, 0, 1, 0, 0, 0],
-        // 4294967297ul
-        vec![1, 0, 0, 0, 1, 0, 0, 0],
-        // 0
-        vec![0],
-        // 2ul
-        vec![2, 0, 0, 0, 0, 0, 0, 0],
-        // 4ul
-        vec![4, 0, 0, 0, 0, 0, 0, 0],
-    ];
-    kani::concrete_playback_run(concrete_vals, crate::c04::q::n2_u2p32::pred);
-}
-
-// failed check (?): 
-#[test]
-fn kani_concrete_playback_pred_10636766262340910515() {
+fn kani_concrete_playback_pred_414970865448342626() {
     let concrete_vals: Vec<Vec<u8>> = vec![
         // 2147483648ul
         vec![0, 0, 0, 128, 0, 0, 0, 0],
-        // 2147483654ul
-        vec![6, 0, 0, 128, 0, 0, 0, 0],
-        // 9223371592325660679ul
-        vec![7, 0, 0, 128, 152, 255, 255, 127],
+        // 4294967296ul
+        vec![0, 0, 0, 0, 1, 0, 0, 0],
+        // 4294967296ul
+        vec![0, 0, 0, 0, 1, 0, 0, 0],
         // 1
         vec![1],
         // 1ul
         vec![1, 0, 0, 0, 0, 0, 0, 0],
+        // 4ul
+        vec![4, 0, 0, 0, 0, 0, 0, 0],
+    ];
+    kani::concrete_playback_run(concrete_vals, crate::c04::q::n2_u2p32::pred);
+}
+
+// failed check (?): 
+#[test]
+fn kani_concrete_playback_pred_1253813356502299060() {
+    let concrete_vals: Vec<Vec<u8>> = vec![
+        // 1476395395ul
+        vec![131, 1, 0, 88, 0, 0, 0, 0],
+        // 2013266304ul
+        vec![128, 1, 0, 120, 0, 0, 0, 0],
+        // 2013266306ul
+        vec![130, 1, 0, 120, 0, 0, 0, 0],
+        // 1
+        vec![1],
+        // 0ul
+        vec![0, 0, 0, 0, 0, 0, 0, 0],
+        // 2ul
+        vec![2, 0, 0, 0, 0, 0, 0, 0],
+    ];
+    kani::concrete_playback_run(concrete_vals, crate::c04::q::n2_u2p32::pred);
+}
+
+// failed check (?): 
+#[test]
+fn kani_concrete_playback_pred_13964927122750300904() {
+    let concrete_vals: Vec<Vec<u8>> = vec![
+        // 2550136703ul
+        vec![127, 255, 255, 151, 0, 0, 0, 0],
+        // 4294967296ul
+        vec![0, 0, 0, 0, 1, 0, 0, 0],
+        // 2550136703ul
+        vec![127, 255, 255, 151, 0, 0, 0, 0],
+        // 1
+        vec![1],
+        // 1ul
+        vec![1, 0, 0, 0, 0, 0, 0, 0],
+    ];
+    kani::concrete_playback_run(concrete_vals, crate::c04::q::n2_u2p32::pred);
+}
+
+// failed check (?): 
+#[test]
+fn kani_concrete_playback_pred_12218048502363394598() {
+    let concrete_vals: Vec<Vec<u8>> = vec![
+        // 2147483646ul
+        vec![254, 255, 255, 127, 0, 0, 0, 0],
+        // 2147483647ul
+        vec![255, 255, 255, 127, 0, 0, 0, 0],
+        // 18446744071562067967ul
+        vec![255, 255, 255, 127, 255, 255, 255, 255],
+        // 0
+        vec![0],
+        // 0ul
+        vec![0, 0, 0, 0, 0, 0, 0, 0],
+        // 4ul
+        vec![4, 0, 0, 0, 0, 0, 0, 0],
     ];
     kani::concrete_playback_run(concrete_vals, crate::c04::q::n2_u2p32::pred);
 }
